@@ -449,6 +449,11 @@ func examineSaved(c *Ctx, nm *namer, ref *Ref, sc saveCase, dir string, died str
 			if row.actions != encs[i] {
 				fail("C12: rows are exactly the as-is state followed by each solution of that run, in archive order", "saved:rows-not-asis-then-members",
 					fmt.Sprintf("%s row %d has action encoding %q, expected %q", file, i, row.actions, encs[i]))
+				if sc.fam != "single" && i > 0 {
+					// C05: the solution set as finally REPORTED is the set the run held (seed C05n)
+					fail("C05: the reported solution set is the set the run held: each member with its own action set", "saved:member-action-set-differs",
+						fmt.Sprintf("%s member %d is reported with the action set %q, the run's solution set holds %q there", file, i, row.actions, encs[i]))
+				}
 				continue
 			}
 			if len(row.vals) != 6 {
